@@ -107,6 +107,19 @@ def gen_c15(rng, n, thorough=False):
             steps.append({"op": rng.choice(["shutdown", "drop"])})
             steps.append(conn(nextc))
         scs.append(scenario(k, steps, max_sessions=maxs, tag="c15-random"))
+    # many sessions end in the same instant (more than the close-notification queue holds): none of them may keep
+    # occupying a slot -- afterwards new connections up to the limit must not evict a healthy session
+    for nclose in ((9, 14, 30) if thorough else (12, 30)):
+        maxs = nclose + 4
+        steps = [conn(c, SRCS4[c % 2]) for c in range(nclose + 2)]
+        steps.append(req(0, req_read(3, 0, 1), 1))
+        steps.append({"op": "close_many", "cs": list(range(2, nclose + 2))})
+        for c in range(nclose + 2, nclose + 2 + maxs - 2):
+            steps.append(conn(c, SRCS4[c % 2]))
+        steps.append(req(0, req_read(3, 0, 1), 1))
+        steps.append(req(1, req_read(3, 0, 1), 1))
+        steps.append({"op": "shutdown"})
+        scs.append(scenario(len(scs), steps, max_sessions=maxs, tag=f"c15-burst-close{nclose}"))
     # the limit itself: max+2 connections in a row, the oldest leaves each time
     for maxs in (0, 1, 2, 3):
         steps = []
@@ -129,6 +142,13 @@ def gen_c15_tls(rng):
         scs.append(scenario(len(scs), steps, variant=variant, max_sessions=2, tag=f"c15-{variant}-evict"))
         steps = [conn(0, silent=True), conn(1, tls=ok), req(1, req_read(3, 0, 1)), {"op": "shutdown"}, conn(3)]
         scs.append(scenario(len(scs), steps, variant=variant, max_sessions=2, tag=f"c15-{variant}-silent-shutdown"))
+        # a decode-level change while a peer is stalled in the handshake must not stop that session from seeing
+        # its eviction / the shutdown
+        dec = {"op": "decode", "level": [3, 2, 2]}
+        steps = [conn(0, silent=True), dec, conn(1, tls=ok), req(1, req_read(3, 0, 1)), {"op": "shutdown"}, conn(3)]
+        scs.append(scenario(len(scs), steps, variant=variant, max_sessions=2, tag=f"c15-{variant}-silent-decode-shutdown"))
+        steps = [conn(0, silent=True), dec, dec, conn(1, tls=ok), req(1, req_read(3, 0, 1)), {"op": "drop"}]
+        scs.append(scenario(len(scs), steps, variant=variant, max_sessions=1, tag=f"c15-{variant}-silent-decode-evict"))
         steps = [conn(0, silent=True), conn(1, tls=ok), req(1, req_read(3, 0, 1)), close(0), conn(2, tls=ok), {"op": "drop"}]
         scs.append(scenario(len(scs), steps, variant=variant, max_sessions=1, tag=f"c15-{variant}-silent-evict"))
     return scs
